@@ -52,6 +52,17 @@ def main(ctx, args):
             ("core", 4000, False), ("closure_assign", 2000, False), ("nested", 2000, False), ("nested_assign", 6000, False)]
     allcases = []
     gstats = collections.Counter()
+    # repaired WASM findings: G8-WSM (`callproj*`: two results of one tuple-returning function alive at once, as operands of one
+    # operation / arguments of one call / with the second call inside a callee), F11 (`statelam`: stateful closures created inside
+    # dsp; every instance owns fresh state), G5 (`modulo`: `%`). The reference semantics has neither stateful closures nor `%`
+    # (it answers `error` / `bad-input` = no prediction): there the VM is compared with WASM only.
+    k10 = 1 if ctx.tier == "quick" else 10
+    plan += [("callproj", 400 * k10, False), ("callproj_lam", 200 * k10, False), ("statelam", 300 * k10, False), ("modulo", 300 * k10, False)]
+    ctx.assumptions += [
+        "since the repair of G5 (`%`), G7 (one-word tuple elements), G8-WSM (tuple results) and F11 (stateful closures created inside dsp): constants next to `%` are mutated, "
+        "`%`, stateful lambdas and projections of calls of tuple-returning functions are generated (profiles `modulo`, `statelam`, `callproj*`), "
+        "and corpus/C01/*.json holds the minimised witnesses (run first)",
+    ]
     if args.replay:
         r = json.load(open(args.replay))
         allcases = [{"id": "replay", "src": r["src"], "sx": r.get("sx"), "inputs": r.get("inputs", []), "times": r.get("times", 16),
